@@ -87,6 +87,9 @@ class Writer:
         # SOAP 1.1 section 5: the name of an independent element is not significant - the customary "multiRef", the
         # name of the accessor that refers to it, or the type's name
         self.mrname = rng.choice(["multiRef", "multiRef", "accessor", "other"])
+        self.spaced = rng.random() < 0.3                      # pretty printed: <x href="#id">(white space)</x>
+        # an independent element may re-bind, for itself, a prefix the envelope binds (and that it does not use)
+        self.shadow = (not self.local) and rng.random() < 0.3
 
     def new_id(self):
         self.n += 1
@@ -127,8 +130,12 @@ class Writer:
                 if root and self.local and v[0] != "array":
                     root = ' xmlns:soapenc="%s"%s' % (ENC, root)
                 tag = {"multiRef": "multiRef", "accessor": name, "other": "val%d" % self.n}[self.mrname]
+                if self.shadow and v[0] in ("str", "int"):
+                    root = ' xmlns:x="urn:shadowed:%d"%s' % (self.n, root)
                 self.multirefs.append('<%s id="%s"%s%s>%s</%s>' % (tag, rid, root, self.type_attrs(v), self.content(v), tag))
             self.outlined += 1
+            if self.spaced:
+                return '<%s href="#%s">\n    </%s>' % (name, rid, name)
             return '<%s href="#%s"/>' % (name, rid)
         ta = self.type_attrs(v)
         if name == "item" and v[0] != "array" and not (v[0] == "struct" and v[1] != "Person") \
